@@ -37,7 +37,13 @@ static __thread int in_lib;
 static long ptr_id (void *p) { return p ? (long) (((uintptr_t) p >> 4) & 0x3fffffff) + 1 : 0; }
 int __real_socket (int, int, int); int __wrap_socket (int d, int t, int p) { int r = __real_socket (d, t, p); if (in_lib) vt_emit ("{\"e\":\"fd_open\",\"fd\":%d,\"by\":\"socket\"}", r); return r; }
 int __real_accept (int, struct sockaddr *, socklen_t *); int __wrap_accept (int s, struct sockaddr *a, socklen_t *l) { int r = __real_accept (s, a, l); if (in_lib && r >= 0) vt_emit ("{\"e\":\"fd_open\",\"fd\":%d,\"by\":\"accept\"}", r); return r; }
-int __real_close (int); int __wrap_close (int fd) { if (in_lib) vt_emit ("{\"e\":\"fd_close\",\"fd\":%d}", fd); return __real_close (fd); }
+/* close_eintr > 0: the next close of the library is interrupted the way this platform does it - the descriptor is released, the call reports EINTR */
+static int close_eintr;
+int __real_close (int); int __wrap_close (int fd) {
+	if (in_lib) vt_emit ("{\"e\":\"fd_close\",\"fd\":%d}", fd);
+	if (in_lib && close_eintr > 0) { close_eintr--; __real_close (fd); errno = EINTR; return -1; }
+	return __real_close (fd);
+}
 FILE *__real_fopen (const char *, const char *); FILE *__wrap_fopen (const char *p, const char *m) { FILE *f = __real_fopen (p, m); if (in_lib) vt_emit ("{\"e\":\"file_open\",\"id\":%ld}", ptr_id (f)); return f; }
 int __real_fclose (FILE *); int __wrap_fclose (FILE *f) { if (in_lib) vt_emit ("{\"e\":\"file_close\",\"id\":%ld}", ptr_id (f)); return __real_fclose (f); }
 DIR *__real_opendir (const char *); DIR *__wrap_opendir (const char *p) { DIR *d = __real_opendir (p); if (in_lib) vt_emit ("{\"e\":\"dir_open\",\"id\":%ld}", ptr_id (d)); return d; }
@@ -158,6 +164,15 @@ static int acquire (const char *k, int want_ok, Obj *o) {
 		poll_late_eintr = poll_early_eintr = 0;
 		o->a = l; o->b = u; ok = want_ok;
 	}
+	else if (!strcmp (k, "shm_close_intr")) {   /* the descriptor of the segment is closed inside p_shm_new: that close is interrupted */
+		PShm *sh; close_eintr = 1; sh = p_shm_new (name, 4096, P_SHM_ACCESS_READWRITE, &err); close_eintr = 0;
+		o->a = sh; ok = sh != NULL;
+	}
+	else if (!strcmp (k, "sock_close_intr")) {  /* p_socket_close interrupted; the object is freed afterwards */
+		PSocket *u = p_socket_new (P_SOCKET_FAMILY_INET, P_SOCKET_TYPE_DATAGRAM, P_SOCKET_PROTOCOL_UDP, NULL); PError *e2 = NULL;
+		close_eintr = 1; if (u) p_socket_close (u, &e2); close_eintr = 0; if (e2) p_error_free (e2);
+		o->a = u; ok = u != NULL;
+	}
 	else if (!strcmp (k, "from_fd")) {        /* a socket object around a descriptor the caller opened: adopted on success, left alone on failure */
 		int sv = in_lib, fd, pfd[2] = { -1, -1 }; PSocket *s;
 		in_lib = 0;
@@ -224,10 +239,10 @@ static void release (Obj *o) {
 	else if (!strcmp (k, "error")) p_error_free (o->a);
 	else if (!strcmp (k, "dir")) p_dir_free (o->a);
 	else if (!strcmp (k, "sockaddr")) p_socket_address_free (o->a);
-	else if (!strcmp (k, "tcp") || !strcmp (k, "tcp_timeout") || !strcmp (k, "sock_intr") || !strcmp (k, "from_fd") || !strcmp (k, "accept_fail") || !strcmp (k, "bind_used") || !strcmp (k, "udp")) { if (o->c) { p_socket_close (o->c, NULL); p_socket_free (o->c); } if (o->b) p_socket_free (o->b); if (o->a) { p_socket_shutdown (o->a, TRUE, TRUE, NULL); p_socket_free (o->a); } }
+	else if (!strcmp (k, "tcp") || !strcmp (k, "tcp_timeout") || !strcmp (k, "sock_intr") || !strcmp (k, "sock_close_intr") || !strcmp (k, "from_fd") || !strcmp (k, "accept_fail") || !strcmp (k, "bind_used") || !strcmp (k, "udp")) { if (o->c) { p_socket_close (o->c, NULL); p_socket_free (o->c); } if (o->b) p_socket_free (o->b); if (o->a) { p_socket_shutdown (o->a, TRUE, TRUE, NULL); p_socket_free (o->a); } }
 	else if (!strcmp (k, "sem")) { p_semaphore_take_ownership (o->a); p_semaphore_free (o->a); }
 	else if (!strcmp (k, "sem2")) { if (o->a) p_semaphore_free (o->a); if (o->b) p_semaphore_free (o->b); if (o->c) { p_semaphore_take_ownership (o->c); p_semaphore_free (o->c); } }
-	else if (!strcmp (k, "shm")) { p_shm_take_ownership (o->a); p_shm_free (o->a); }
+	else if (!strcmp (k, "shm") || !strcmp (k, "shm_close_intr")) { p_shm_take_ownership (o->a); p_shm_free (o->a); }
 	else if (!strcmp (k, "shm_same") || !strcmp (k, "shm_smaller")) { if (o->b) p_shm_free (o->b); if (o->a) p_shm_free (o->a); }
 	else if (!strcmp (k, "shmbuf")) { if (o->b) p_shm_buffer_free (o->b); if (o->a) { p_shm_buffer_take_ownership (o->a); p_shm_buffer_free (o->a); } }
 	else if (!strcmp (k, "thread") || !strcmp (k, "thread_named") || !strcmp (k, "thread_detached")) p_uthread_unref (o->a);
